@@ -17,10 +17,19 @@ def f64_bits(x):
 class Names:
     def __init__(self, rng, unicode_ok=True):
         pool = [n for n in IDENT_POOL if unicode_ok or n.isascii()]
+        self.unicode_ok = unicode_ok
+        self.rng = rng
         rng.shuffle(pool)
         self.pool = pool
         self.k = 0
         self.used = set()
+
+    def fresh_entry(self, prefix):
+        """entry point names: every fourth carries letters whose Unicode upper case differs from the ASCII one"""
+        n = self.fresh(prefix)
+        if self.unicode_ok and self.rng.random() < 0.25:
+            n += self.rng.choice(["_gr\u00f6\u00dfe", "_\u00e9t\u00e9", "\u00df", "_\u01c6"])
+        return n
 
     def fresh(self, prefix=""):
         while True:
@@ -227,12 +236,23 @@ VTYPES = [("f32", 4), ("vec2<f32>", 8), ("vec3<f32>", 12), ("vec4<f32>", 16), ("
           ("vec4<u32>", 16), ("u32", 4), ("vec3<u32>", 12), ("vec3<i32>", 12)]
 
 
+class _Sometimes:
+    """formats as its text in ~60 % of its uses, as nothing otherwise"""
+
+    def __init__(self, rng, text):
+        self.rng, self.text = rng, text
+
+    def __str__(self):
+        return self.text if self.rng.random() < 0.6 else ""
+
+
 def gen_entries(rng, names, ov_names):
     """returns (struct/decl lines, entry lines, truth)"""
     decl, ents, truth = [], [], []
     nv, nf, nc = rng.choice([(1, 1, 0), (0, 0, 1), (1, 1, 1), (2, 1, 0), (0, 2, 2), (1, 0, 0), (0, 1, 0), (2, 2, 2), (0, 0, 0),
                              (3, 1, 0), (3, 0, 1), (2, 0, 0)])
-    use_ov = ("_ = %s;" % ov_names[0]) if ov_names else ""
+    # an override is used by SOME entry points only (directly, or not at all): the helpers must pass the map regardless
+    use_ov = _Sometimes(rng, ("_ = %s;" % ov_names[0]) if ov_names else "")
     vstructs = []
     first_chosen = None
     for i in range(rng.randint(0, 3) if nv < 2 else rng.randint(2, 3)):
@@ -258,7 +278,7 @@ def gen_entries(rng, names, ov_names):
         decl.append("struct %s { %s }" % (sn, ", ".join(fields)))
         vstructs.append((sn, locs, has_bi))
     for k in range(nv):
-        name = names.fresh("vs_")
+        name = names.fresh_entry("vs_")
         chosen, usedloc, used_bi = [], set(), False
         pool = list(vstructs)
         rng.shuffle(pool)
@@ -285,8 +305,8 @@ def gen_entries(rng, names, ov_names):
                     % (name, ", ".join(params), use_ov))
         truth.append({"name": name, "stage": "vertex", "structs": chosen})
     for k in range(nf):
-        name = names.fresh("fs_")
-        form = rng.choice(["none", "builtin", "scalar0", "vec_k", "struct_dense", "struct_sparse", "struct_builtin"])
+        name = names.fresh_entry("fs_")
+        form = rng.choice(["none", "builtin", "scalar0", "vec_k", "struct_dense", "struct_sparse", "struct_builtin", "struct_dual"])
         if form == "none":
             ents.append("@fragment fn %s() { %s }" % (name, use_ov))
             need = 0
@@ -300,6 +320,13 @@ def gen_entries(rng, names, ov_names):
             loc = rng.choice([0, 1, 2, 5])
             ents.append("@fragment fn %s() -> @location(%d) vec4<f32> { %s return vec4<f32>(0.0); }" % (name, loc, use_ov))
             need = loc + 1
+        elif form == "struct_dual":
+            # dual-source blending: two members at @location(0), the second marked as the second blend source -> ONE target
+            sn = names.fresh("FOut")
+            sn = sn[0].upper() + sn[1:]
+            decl.append("struct %s { @location(0) c0: vec4<f32>, @location(0) @second_blend_source c1: vec4<f32> }" % sn)
+            ents.append("@fragment fn %s() -> %s { %s var o: %s; return o; }" % (name, sn, use_ov, sn))
+            need = 1
         else:
             sn = names.fresh("FOut")
             sn = sn[0].upper() + sn[1:]
@@ -317,7 +344,7 @@ def gen_entries(rng, names, ov_names):
             need = max(locs) + 1
         truth.append({"name": name, "stage": "fragment", "targets": need})
     for k in range(nc):
-        name = names.fresh("cs_")
+        name = names.fresh_entry("cs_")
         dims = rng.choice([[1], [64], [8, 8], [4, 2, 3], [256, 1, 1], [1, 1, 64], [16, 16], ["WG"], [2, "WG"]])
         wg = [d if d != "WG" else 4 for d in dims] + [1] * (3 - len(dims))
         ents.append("@compute @workgroup_size(%s) fn %s() { %s }" % (", ".join(str(d) for d in dims), name, use_ov))
